@@ -8,6 +8,8 @@ From XcpModel Require Import ConcBlock.
 From XcpProofs Require Import ConcBlockProofs ConcOutcomeProofs.
 From XcpModel Require Import Extracted.
 From XcpProofs Require Import ExtractedOk.
+From XcpProofs Require Import PinnedSource.
+From XcpPins Require Import Pin_feedback_send.
 
 (* batching (ChannelUpdater): for EVERY send order and block size, what is
    delivered never reports more copied bytes than were passed to send; Size and
@@ -89,6 +91,11 @@ Theorem C12_src_size_before_copy_is_queued :
   In (0, [0; 1]) x_walker_dispatch.
 Proof. vm_compute. now left. Qed.
 
+(* ---- the glue functions this property's hand-written model mirrors are, token for token, the ones it was
+   validated against (an edit re-opens the obligation; harness/repin.py re-pins after re-validation) ---- *)
+Theorem C12_src_pin_feedback_send : pin_unchanged name_feedback_send.
+Proof. exact pin_feedback_send. Qed.
+
 Print Assumptions C12_batching_sound.
 Print Assumptions C12_delivery_is_prefix_monotone.
 Print Assumptions C12_copy_bytes_reports_le_len.
@@ -99,3 +106,4 @@ Print Assumptions C12_src_send_condition.
 Print Assumptions C12_size_before_copied.
 Print Assumptions C12_src_premature_end_is_error.
 Print Assumptions C12_src_size_before_copy_is_queued.
+Print Assumptions C12_src_pin_feedback_send.
